@@ -1,6 +1,7 @@
 import Psa.Namespace
 import Psa.ExpectedFacts
 import Psa.StoreMachine
+import Psa.Examples
 /-! # C15 — admission responses are independent of other requests
 In the model, `validate` is a function of (configuration, world, request): there is no controller state for a request to
 leave behind. What makes that a faithful model of the Go code is *structural*, and is regenerated from the source on every
@@ -83,6 +84,12 @@ def requestStores : List StoreMachine.Instr :=
 theorem C15_shared_responses_never_written (s : StoreMachine.Shared) (sched : List (Nat × Nat)) :
     StoreMachine.run requestStores s sched = s :=
   StoreMachine.run_fresh requestStores (by decide) s sched
+
+/-- non-vacuity: a history of three different requests (a denied pod, an exempt pod, a warned controller) through `runSeq`:
+    three different answers, each the answer of the request alone -/
+example : ((runSeq Ex.cfg Ex.lim ⟨[]⟩ [(Ex.world Ex.restrictedLabels, Ex.podCreate Ex.privPod), (Ex.world Ex.restrictedLabels, Ex.podCreate Ex.kataPod),
+      (Ex.world Ex.restrictedLabels, Ex.ctlCreate Ex.privPod)]).2.map (fun o => (o.1.allowed, o.1.code, o.1.warnings.length))) =
+    [(false, 403, 0), (true, 0, 0), (true, 0, 1)] := by decide +kernel
 
 #print axioms C15_sequence
 #print axioms C15_interleaving
